@@ -51,6 +51,9 @@ HAZARDS = {
 }
 
 
+FIXED_HAZARDS = {"stdout", "refskip"}      # repaired in /repo (d276e47, ce2017e): always generated
+
+
 def _hazards_enabled():
     if os.environ.get("WV_X03_HAZARD"):
         return set(HAZARDS)
@@ -62,7 +65,7 @@ def _hazards_enabled():
                           if x.get("property") == PROP and x.get("status") == "known"}
         except Exception:
             pass
-    return {k for k, cs in HAZARDS.items() if cs in known}
+    return {k for k, cs in HAZARDS.items() if cs in known} | FIXED_HAZARDS
 
 
 # ==============================================================================================
